@@ -6,7 +6,7 @@
 (* the implementation must satisfy; operands may be non-canonical 64-bit   *)
 (* representations, results are compared modulo p.                         *)
 (***************************************************************************)
-EXTENDS Limbs
+EXTENDS Limbs, TLC
 
 Is64(x) == Len(x) = 8 /\ IsNat256(x)
 
@@ -31,7 +31,7 @@ FromSignedOk(neg, mag, r) == Is64(r) /\ ~Geq(r, P8)
 \* ---- extensions ---------------------------------------------------------
 ExtW(D) == IF D = 5 THEN 3 ELSE 7
 IsExt(D, a) == Len(a) = D /\ \A i \in 1..D : Is64(a[i])
-CanonExt(a) == [i \in 1..Len(a) |-> ModP(a[i])]
+CanonExt(a) == Tup([i \in 1..Len(a) |-> ModP(a[i])], Len(a))
 EqExt(a, b) == CanonExt(a) = CanonExt(b)
 ExtZero(D) == [i \in 1..D |-> Zero8]
 ExtOne(D) == [i \in 1..D |-> IF i = 1 THEN One8 ELSE Zero8]
@@ -50,9 +50,9 @@ PairsSum(D, t) ==     \* index pairs (i,j), 1-based coefficients, with (i-1)+(j-
   IN Mk(1)
 \* schoolbook product modulo X^D - Wc on canonical operands
 ExtMul(D, a0, b0) ==
-  LET a == CanonExt(a0)  b == CanonExt(b0) IN
-  [k \in 1..D |-> ModP(Nat256(ColAdd(ColSum(a, b, PairsSum(D, k - 1)),
-                                      ColScale(ColSum(a, b, PairsSum(D, k - 1 + D)), ExtW(D)))))]
+  LET a == TLCEval(CanonExt(a0))  b == TLCEval(CanonExt(b0)) IN
+  Tup([k \in 1..D |-> ModP(Nat256(ColAdd(ColSum(a, b, PairsSum(D, k - 1)),
+                                      ColScale(ColSum(a, b, PairsSum(D, k - 1 + D)), ExtW(D)))))], D)
 ExtAdd(a, b) == [i \in 1..Len(a) |-> AddP(a[i], b[i])]
 ExtSub(a, b) == [i \in 1..Len(a) |-> SubP(a[i], b[i])]
 
@@ -70,6 +70,20 @@ ExtPow(D, a, e) == ExtPowBits(D, CanonExt(a), BitsMsb(e), ExtOne(D))
 ExtExpOk(D, a, e, r) == IsExt(D, r) /\ EqExt(r, ExtPow(D, a, e))
 \* Frobenius: r = a^p (by square and multiply with exponent p)
 ExtFrobOk(D, a, r) == ExtExpOk(D, a, P8, r)
+
+\* a^e witnessed by its square-and-multiply chain: bits = binary digits of e (msb first, 64 of
+\* them), steps[1] = 1, steps[i+1] = steps[i]^2 * (a if bits[i] = 1); r = last step.  Linear
+\* in the exponent length (the nested definition ExtPow is exponential for TLC's lazy values).
+ExtChainOk(D, a, e, bits, steps, sqs, r) ==
+  /\ IsExt(D, r) /\ Len(steps) = Len(bits) + 1 /\ Len(sqs) = Len(bits)
+  /\ bits = BitsMsb(e)
+  /\ steps[1] = ExtOne(D)
+  \* every ExtMul below is applied to recorded values only: TLC passes operator arguments
+  \* lazily and re-evaluates them at every use, so nested products are exponential
+  /\ \A i \in 1..Len(bits) :
+        /\ sqs[i] = ExtMul(D, steps[i], steps[i])
+        /\ steps[i + 1] = IF bits[i] = 1 THEN ExtMul(D, sqs[i], a) ELSE sqs[i]
+  /\ EqExt(r, steps[Len(steps)])
 
 \* batch inversion: every r[i] inverts x[i]
 BatchInvOk(xs, rs) == Len(xs) = Len(rs) /\ \A i \in 1..Len(xs) : InvOk(xs[i], rs[i])
